@@ -2,6 +2,7 @@ package main
 
 import (
 	"fmt"
+	"os"
 	"reflect"
 	"sort"
 	"strings"
@@ -45,6 +46,13 @@ func init() {
 				stats.skipped++
 			}
 			if key != "" {
+				if key == "timeout" {
+					// the abandoned goroutine may spin and allocate forever: report and stop this harness process now
+					fmt.Fprintf(out, "FAIL %s %s timeout tags=- | %s\n", f[0], f[1], detail)
+					fmt.Fprintf(out, "STAT cases=%d skipped=%d accepted=%d nodes=%d types=ABORTED-AFTER-TIMEOUT\n", stats.cases, stats.skipped, stats.accepted, stats.nodes)
+					out.Flush()
+					os.Exit(0)
+				}
 				fmt.Fprintf(out, "FAIL %s %s %s tags=%s | %s\n", f[0], f[1], strings.ReplaceAll(key, " ", "_"), findingTags(e, x), strings.ReplaceAll(detail, "\n", "\\n"))
 			}
 		})
@@ -683,7 +691,9 @@ func init() {
 				}
 				in := false
 				for _, rt := range roots {
-					if int(rt.Pos()) <= int(t.Pos) && int(t.End) <= int(rt.End()) {
+					// overlap, not containment: whether node ranges are exact is C05/C06's business; a token the parser
+					// did not consume lies entirely after the returned tree
+					if int(t.Pos) < int(rt.End()) && int(rt.Pos()) < int(t.End) {
 						in = true
 					}
 				}
@@ -907,6 +917,18 @@ func findingTags(e *entryPoint, x string) string {
 			}
 		case *ast.ChangeStreamForAll:
 			add("change-stream-for-all")
+		case *ast.SimpleType:
+			if p := int(n.NamePos); p >= 0 && p < len(x) && x[p] == '`' {
+				add("quoted-builtin-type-name")
+			}
+		case *ast.ScalarSchemaType:
+			if p := int(n.NamePos); p >= 0 && p < len(x) && x[p] == '`' {
+				add("quoted-builtin-type-name")
+			}
+		case *ast.SizedSchemaType:
+			if p := int(n.NamePos); p >= 0 && p < len(x) && x[p] == '`' {
+				add("quoted-builtin-type-name")
+			}
 		case *ast.BadNode:
 			for _, t := range n.Tokens {
 				if t.Raw == "" && len(t.Comments) > 0 {
